@@ -106,7 +106,25 @@ def _strip_file(view: dict[str, Any]) -> dict[str, Any]:
 
 # --------------------------------------------------------------------------- life edits (settings changed after creation)
 
-EDIT_KINDS = ("cache-tol", "cache-name", "in-optional", "in-required", "in-default", "out-optional", "use")
+EDIT_KINDS = ("cache-tol", "cache-name", "in-optional", "in-required", "in-default", "out-optional", "use",
+              "jac-approx", "fd-opt-step", "lin-mode")
+
+# Settings that live in a helper object created *after* the construction (the Jacobian approximator made by
+# `set_jacobian_approximation`, the per-input steps computed by `set_optimal_fd_step`, its parallel options)
+# and the linearization mode: the restored discipline must linearize with them.
+APPROX_MODES = ("finite_differences", "centered_differences", "complex_step")
+MAX_INPUT_SIZE_FOR_OPTIMAL_STEP = 16
+
+
+def _input_size(disc) -> int:
+    n = 0
+    for v in disc.io.input_grammar.defaults.values():
+        n += int(np.size(v))
+    return n
+
+
+def _is_approx(disc) -> bool:
+    return str(getattr(disc, "linearization_mode", "")) in APPROX_MODES
 
 
 def _float_default_names(disc) -> list[str]:
@@ -163,6 +181,33 @@ def apply_edits(disc, edits, pre_inputs) -> list[tuple[str, str, Any]]:
                 x = _fresh(pre_inputs[int(arg) % len(pre_inputs)]) if pre_inputs else {}
                 st, _ = _call(disc.execute, x)
                 done.append((kind, st, None))
+            elif kind == "jac-approx":
+                # [kind, mode index, step, parallel?]: `set_jacobian_approximation` (it also sets the mode)
+                mode = APPROX_MODES[int(arg) % len(APPROX_MODES)]
+                step = float(Fr(str(e[2]))) if len(e) > 2 else 2.0**-20
+                kw = {}
+                if len(e) > 3 and e[3]:
+                    kw = {"jac_approx_n_processes": 2, "jac_approx_use_threading": False, "jac_approx_wait_time": 0.0}
+                disc.set_jacobian_approximation(disc.ApproximationMode(mode), jax_approx_step=step, **kw)
+                done.append((kind, mode + ("+2-processes" if kw else ""), step))
+            elif kind == "fd-opt-step":
+                # [kind, mode index or -1 (keep the approximator), step]: the optimal steps are computed by the
+                # approximator and kept by it (`set_optimal_fd_step` executes the discipline twice per input)
+                if _input_size(disc) > MAX_INPUT_SIZE_FOR_OPTIMAL_STEP:
+                    done.append(("refused:" + kind, "too-many-inputs", None))
+                    continue
+                if int(arg) >= 0:
+                    mode = APPROX_MODES[int(arg) % 2]
+                    step = float(Fr(str(e[2]))) if len(e) > 2 else 2.0**-7
+                    disc.set_jacobian_approximation(disc.ApproximationMode(mode), jax_approx_step=step)
+                    done.append(("jac-approx", mode, step))
+                disc.set_optimal_fd_step(compute_all_jacobians=True)
+                done.append((kind, "", None))
+            elif kind == "lin-mode":
+                modes = sorted(str(m) for m in disc.LinearizationMode)
+                m = modes[int(arg) % len(modes)]
+                disc.linearization_mode = disc.LinearizationMode(m)
+                done.append((kind, "", m))
         except Exception as ex:  # noqa: BLE001  (an edit the class refuses is not part of the case)
             done.append(("refused:" + kind, type(ex).__name__, None))
     return done
@@ -177,6 +222,10 @@ def check_edits_carried(out: Outcome, copy, done) -> None:
             last[("in-req", n)] = v
         elif kind in ("cache-tol", "cache-name", "in-default", "out-optional"):
             last[(kind, n)] = v
+        elif kind == "jac-approx":
+            last[("lin-mode", "")] = n.split("+")[0]
+        elif kind == "lin-mode":
+            last[("lin-mode", "")] = v
     for (kind, n), v in last.items():
         ok, got = True, None
         if kind == "cache-tol":
@@ -194,6 +243,9 @@ def check_edits_carried(out: Outcome, copy, done) -> None:
         elif kind == "in-default":
             got = gin.defaults.get(n)
             ok = isinstance(got, np.ndarray) and got.shape == v.shape and bool((got == v).all())
+        elif kind == "lin-mode":
+            got = str(getattr(copy, "linearization_mode", None))
+            ok = got == v
         if not ok:
             out.fail("setting-not-carried", f"{kind} {n!r} was set to {v!r} before pickling, the restored object has {got!r}")
 
@@ -244,19 +296,18 @@ def build_discipline(case: dict[str, Any], tmp: Path):
     return disc
 
 
-def run_discipline_case(case: dict[str, Any], tmp: Path) -> Outcome:
+def live_discipline(case: dict[str, Any], tmp: Path, rng: common.Rng, out: Outcome):
+    """Build the discipline of the case and give it its life before serialization (moment, observer, edits).
+    Returns (discipline, pre_inputs, done, seen_inputs) or None (`out.status` says why)."""
     from gemseo.core.execution_statistics import ExecutionStatistics
 
-    out = Outcome()
     ExecutionStatistics.is_enabled = True
-    rng = common.make_rng(int(case.get("seed", 0)), "c20-inputs")
-    grammar = case.get("grammar", "JSONGrammar")
     try:
         disc = build_discipline(case, tmp)
     except Exception as e:  # noqa: BLE001
         out.status = "noinst"
         out.detail = f"{type(e).__name__}: {str(e)[:120]}"
-        return out
+        return None
     out.info["class"] = type(disc).__name__
     out.info["grammar_class"] = type(disc.io.input_grammar).__name__
 
@@ -270,13 +321,13 @@ def run_discipline_case(case: dict[str, Any], tmp: Path) -> Outcome:
             if st == "exc":
                 out.status = "skipped"
                 out.detail = "original cannot execute on the generated input: " + r
-                return out
+                return None
     if moment == "linearized":
         st, r = _call(disc.linearize, _fresh(pre_inputs[-1]), compute_all_jacobians=True)
         if st == "exc":
             out.status = "skipped"
             out.detail = "original cannot linearize: " + r
-            return out
+            return None
     if case.get("observer"):
         obs = H.ResourceObserver() if case["observer"] == "resource" else H.PlainObserver()
         disc.execution_status.add_observer(obs)
@@ -284,6 +335,17 @@ def run_discipline_case(case: dict[str, Any], tmp: Path) -> Outcome:
     done = apply_edits(disc, case.get("edits"), pre_inputs)
     out.info["edits_done"] = [k for k, _, _ in done]
     seen_inputs = list(pre_inputs) if moment != "fresh" or any(k == "use" for k, _, _ in done) else []
+    return disc, pre_inputs, done, seen_inputs
+
+
+def run_discipline_case(case: dict[str, Any], tmp: Path) -> Outcome:
+    out = Outcome()
+    rng = common.make_rng(int(case.get("seed", 0)), "c20-inputs")
+    lived = live_discipline(case, tmp, rng, out)
+    if lived is None:
+        return out
+    disc, pre_inputs, done, seen_inputs = lived
+    moment = case.get("moment", "fresh")
 
     # ---- (a) serialize + restore
     # (a *blind* case serializes before the harness observes anything: an observation - reading `schema`,
